@@ -173,6 +173,18 @@ func (sv *Solver) solveFile(un *Unit, o *Obl, file string) {
 		sv.mu.Unlock()
 		return
 	}
+	if !decided && o.Cover && !strings.HasSuffix(o.SmtFile, ".cex.smt2") {
+		// reachability with the quantified hypotheses dropped (they make `sat` undecidable for the solvers)
+		file2 := strings.TrimSuffix(file, ".smt2") + ".cex.smt2"
+		if err := os.WriteFile(file2, []byte(un.smtForOpt(o, true, true)), 0o644); err == nil {
+			o.SmtFile = file2
+			sv.solveFile(un, o, file2)
+			if o.Status == "discharged" {
+				o.Output = "sat (quantifier-free part of the hypotheses)"
+			}
+			return
+		}
+	}
 	if !decided && !o.Cover && !strings.HasSuffix(o.SmtFile, ".cex.smt2") {
 		// second stage (counterexample search): quantified hypotheses dropped
 		first := o.Output
